@@ -26,8 +26,9 @@
    ISCAN_NO_REWIND (the cursor keeps its rank when the permutation of its border changed: entries shift under it).
    iscan (cursor: open(-inf, +inf), next until the end): IOLv1 IOP IOLv2 IOStack / INTop INNext INEnt / iscan_check_retry CK1..CK4 with the
    outcome CkDone per call site / INNb1..3 move to the neighbour / IRFb retry_after_fb / IRRoot IRArr retry_from_root / IRet
-   Two other candidate switches turned out to be harmless for forward scans and were dropped (TLC finds no violation): starting a
-   border from a fresh version instead of the handed-over one, and logging the next border's version after the final check (a
+   SCAN_FRESH_VERSION (scan_border starts from a fresh version instead of the one of the validated descent: harmless for forward scans,
+   which read the next pointer and the content after the version, but a right-to-left scan misses the keys a split has moved away).
+   One other candidate switch turned out to be harmless and was dropped (TLC finds no violation): logging the next border's version after the final check (a
    forward scan reads the next pointer and the content after the version, so a later version only makes it see a later state).
    scan (full range, collecting (version, node) pairs): SEnter / SNext next pointer / SPermS permutation snapshot / per entry SVal, SChk /
    SRec / SNv version of the next border / SFin final check (retry from root, retry the border, hand over to the next border) / SRet *)
@@ -36,7 +37,7 @@ CONSTANTS F, Keys, Threads,
           Prog,            \* [Threads -> [op : {"get", "put", "rem"}, k : Keys, v : value id]]
           Init1, Init2,    \* keys of B1 and B2 (every key of B1 below every key of B2; both non-empty)
           UNLOCK_BEFORE_PARENT, NO_INS_ON_INSERT, NO_INS_ON_DELETE,
-          SCAN_NO_FINAL, SCAN_NO_ENTRY_CHECK, SCAN_DUP, ISCAN_NO_REWIND
+          SCAN_NO_FINAL, SCAN_NO_ENTRY_CHECK, SCAN_DUP, ISCAN_NO_REWIND, SCAN_FRESH_VERSION
 ABSENT == 0
 NULL == 0
 NoSlot == 99
@@ -77,7 +78,7 @@ RemoveSlot(p, s) == SelectSeq(p, LAMBDA x : x # s)
 FreeSlot(p) == CHOOSE s \in Slots : (\A i \in 1..Len(p) : p[i] # s) /\ (\A s2 \in Slots : (\A i \in 1..Len(p) : p[i] # s2) => s <= s2)
 Goto(t, l) == pc' = [pc EXCEPT ![t] = l]
 Commit(k, b) == /\ abs' = [abs EXCEPT ![k] = b]
-                /\ seen' = Force([t \in Threads |-> IF InFlight(t) /\ (Op(t).op \in {"scan", "iscan"} \/ Op(t).k = k) THEN [seen[t] EXCEPT ![k] = @ \cup {b}] ELSE seen[t]])
+                /\ seen' = Force([t \in Threads |-> IF InFlight(t) /\ (Op(t).op \in {"scan", "iscan", "rscan"} \/ Op(t).k = k) THEN [seen[t] EXCEPT ![k] = @ \cup {b}] ELSE seen[t]])
 Ret(t, r) == res' = [res EXCEPT ![t] = Append(@, [op |-> Op(t).op, k |-> Op(t).k, st |-> r[1], w |-> r[2], sn |-> seen[t], ins |-> loc[t].insd, nv |-> loc[t].nv])] /\ Goto(t, "done")
 VerOf(n) == IF n \in Interiors THEN it[n].ver ELSE bd[n].ver
 ParentOf(n) == IF n \in Interiors THEN it[n].parent ELSE bd[n].parent
@@ -87,13 +88,13 @@ Keep == F \div 2 + 1
 \* index of the child for key k in interior p (interior_node::get_child_of without the version protocol)
 ChildIdx(p, k) == IF \E i \in 0..(it[p].n - 1) : k < it[p].key[i] THEN CHOOSE i \in 0..(it[p].n - 1) : k < it[p].key[i] /\ \A j \in 0..(i - 1) : ~(k < it[p].key[j])
                   ELSE it[p].n
-AfterFB(t) == IF Op(t).op = "scan" THEN "s_enter" ELSE IF Op(t).op = "iscan" THEN (IF loc[t].iph = "open" THEN "io_lv1" ELSE "ir_arr") ELSE "lv1"
+AfterFB(t) == IF Op(t).op \in {"scan", "rscan"} THEN "s_enter" ELSE IF Op(t).op = "iscan" THEN (IF loc[t].iph = "open" THEN "io_lv1" ELSE "ir_arr") ELSE "lv1"
 \* the key find_border descends for: scans start at the leftmost border, a cursor that re-finds its position uses its last key
-DescKey(t) == IF Op(t).op = "scan" THEN 0 ELSE IF Op(t).op = "iscan" THEN loc[t].stlast ELSE Op(t).k
+DescKey(t) == IF Op(t).op = "scan" THEN 0 ELSE IF Op(t).op = "rscan" THEN 999 ELSE IF Op(t).op = "iscan" THEN loc[t].stlast ELSE Op(t).k
 IsScanOp(t) == Op(t).op \in {"scan", "iscan"}
 SameButLock(a, b) == [a EXCEPT !.lk = FALSE] = [b EXCEPT !.lk = FALSE]
 \* ---------------------------------------------------------------- common: invocation, root load, find_border, get_lv_of
-Start(t) == /\ pc[t] = "start" /\ seen' = [seen EXCEPT ![t] = [k \in Keys |-> IF Op(t).op \in {"scan", "iscan"} \/ k = Op(t).k THEN {abs[k]} ELSE {}]] /\ loc' = [loc EXCEPT ![t] = L0] /\ Goto(t, "g0")
+Start(t) == /\ pc[t] = "start" /\ seen' = [seen EXCEPT ![t] = [k \in Keys |-> IF Op(t).op \in {"scan", "iscan", "rscan"} \/ k = Op(t).k THEN {abs[k]} ELSE {}]] /\ loc' = [loc EXCEPT ![t] = L0] /\ Goto(t, "g0")
             /\ UNCHANGED <<bd, it, rootp, rootlock, abs, res>>
 G0(t) == /\ pc[t] = "g0" /\ loc' = [loc EXCEPT ![t].root = rootp] /\ Goto(t, "fb")
          /\ UNCHANGED <<bd, it, rootp, rootlock, abs, seen, res>>
@@ -368,13 +369,14 @@ Cut(sq, n) == SubSeq(sq, 1, n)
 SEnter(t) == /\ pc[t] = "s_enter" /\ LET l == loc[t] IN
                 IF l.vfb.del /\ l.vfb.root THEN loc' = [loc EXCEPT ![t].nv = <<<<l.vfb, l.b>>>>] /\ Goto(t, "s_ret")
                 ELSE loc' = [loc EXCEPT ![t].iszo = Len(l.out), ![t].iszn = Len(l.nv),
-                                        ![t].vfb = l.vfb] /\ Goto(t, "s_next")
+                                        ![t].vfb = IF SCAN_FRESH_VERSION /\ Stable(bd[l.b].ver) THEN bd[l.b].ver ELSE l.vfb] /\ Goto(t, "s_next")
              /\ UNCHANGED <<bd, it, rootp, rootlock, abs, seen, res>>
 SRet(t) == /\ pc[t] = "s_ret" /\ Ret(t, <<"OK", loc[t].out>>) /\ UNCHANGED <<bd, it, rootp, rootlock, loc, abs, seen>>
 \* retry: label of scan_border: the next pointer is logged first, then the permutation snapshot
 SNext(t) == /\ pc[t] = "s_next" /\ loc' = [loc EXCEPT ![t].nxt = bd[loc[t].b].next, ![t].pushed = FALSE] /\ Goto(t, "s_perm")
             /\ UNCHANGED <<bd, it, rootp, rootlock, abs, seen, res>>
-SPermS(t) == /\ pc[t] = "s_perm" /\ loc' = [loc EXCEPT ![t].snap = bd[loc[t].b].perm, ![t].si = 1]
+\* right-to-left (max_size = 1, unbounded): the entries are visited from the last rank down and the first one that is pushed ends the scan
+SPermS(t) == /\ pc[t] = "s_perm" /\ loc' = [loc EXCEPT ![t].snap = bd[loc[t].b].perm, ![t].si = IF Op(t).op = "rscan" THEN Len(bd[loc[t].b].perm) ELSE 1]
              /\ Goto(t, IF Len(bd[loc[t].b].perm) = 0 THEN "s_rec" ELSE "s_val") /\ UNCHANGED <<bd, it, rootp, rootlock, abs, seen, res>>
 SVal(t) == /\ pc[t] = "s_val" /\ loc' = [loc EXCEPT ![t].w = bd[loc[t].b].lv[loc[t].snap[loc[t].si]], ![t].idx = loc[t].snap[loc[t].si]] /\ Goto(t, "s_chk")
            /\ UNCHANGED <<bd, it, rootp, rootlock, abs, seen, res>>
@@ -389,7 +391,7 @@ SChk(t) == /\ pc[t] = "s_chk" /\ Stable(bd[loc[t].b].ver)
                         loc' = [loc EXCEPT ![t].si = l.si + 1] /\ Goto(t, IF l.si = Len(l.snap) THEN "s_rec" ELSE "s_val")
               ELSE /\ loc' = [loc EXCEPT ![t].out = Append(l.out, <<bd[l.b].ks[l.idx], l.w>>), ![t].si = l.si + 1, ![t].pushed = TRUE,
                                          ![t].nv = IF l.pushed THEN l.nv ELSE Append(l.nv, <<l.vfb, l.b>>)]
-                   /\ Goto(t, IF l.si = Len(l.snap) THEN "s_rec" ELSE "s_val")
+                   /\ Goto(t, IF Op(t).op = "rscan" THEN "s_ret" ELSE IF l.si = Len(l.snap) THEN "s_rec" ELSE "s_val")
            /\ UNCHANGED <<bd, it, rootp, rootlock, abs, seen, res>>
 \* a border that contributed nothing is recorded as well
 SRec(t) == /\ pc[t] = "s_rec" /\ loc' = [loc EXCEPT ![t].nv = IF loc[t].pushed THEN loc[t].nv ELSE Append(loc[t].nv, <<loc[t].vfb, loc[t].b>>), ![t].pushed = TRUE]
@@ -518,7 +520,13 @@ ScanResOK(r) == LET out == r.w IN
                 /\ \A i \in 1..(Len(out) - 1) : out[i][1] < out[i + 1][1]
                 /\ \A i \in 1..Len(out) : out[i][2] # 0 /\ out[i][2] \in r.sn[out[i][1]]
                 /\ \A k \in Keys : k \notin OutKeys(out) => ABSENT \in r.sn[k]
-ScanOK == \A t \in Threads : \A i \in 1..Len(res[t]) : res[t][i].op \in {"scan", "iscan"} => ScanResOK(res[t][i])
+\* right-to-left, one entry: the returned pair was current at some instant and every greater key was absent at some instant of the scan
+RScanResOK(r) == LET out == r.w IN
+                 /\ Len(out) <= 1
+                 /\ (Len(out) = 1 => out[1][2] # 0 /\ out[1][2] \in r.sn[out[1][1]] /\ \A k \in Keys : k > out[1][1] => ABSENT \in r.sn[k])
+                 /\ (Len(out) = 0 => \A k \in Keys : ABSENT \in r.sn[k])
+ScanOK == /\ \A t \in Threads : \A i \in 1..Len(res[t]) : res[t][i].op \in {"scan", "iscan"} => ScanResOK(res[t][i])
+          /\ \A t \in Threads : \A i \in 1..Len(res[t]) : res[t][i].op = "rscan" => RScanResOK(res[t][i])
 \* C05 / C06: the collected set is never empty, and once everything has completed every insert of a new key is either in the
 \* scan's result or has left a collected (version, node) pair stale
 NvOK == AllDone => \A t \in Threads : \A i \in 1..Len(res[t]) : res[t][i].op \in {"scan", "iscan"} =>
